@@ -129,6 +129,18 @@ let diff fmt = Printf.ksprintf (fun s -> set_v ("DIFF " ^ s)) fmt
 
 let sort_coords l = List.sort compare l
 
+(* check_C07 verdicts of the current case: entry points that report the same (max, argmax,
+   threshold set) for the same matrix and threshold get the same verdict, evaluated once *)
+let all_memo : (string * (int * int) option * (int * int) list, bool) Hashtbl.t = Hashtbl.create 16
+let chk_all_memo (e : 'v elt) m t o1 (o2 : (int * int) option) (sorted : (int * int) list) =
+  let key = ((match o1 with None -> "N" | Some v -> e.show v), o2, sorted) in
+  match Hashtbl.find_opt all_memo key with
+  | Some b -> b
+  | None ->
+      let oc = match o2 with None -> None | Some rc -> Some (coord_to_nat rc) in
+      let b = e.chk_all m t o1 oc (List.map coord_to_nat sorted) in
+      Hashtbl.replace all_memo key b; b
+
 (* check one entry point returning coordinates *)
 let check_entry (e : 'v elt) (m : 'v list list) (t : 'v) (domain : bool) (get : string -> string option)
     (name : string)
@@ -141,8 +153,7 @@ let check_entry (e : 'v elt) (m : 'v list list) (t : 'v) (domain : bool) (get : 
     match obs_opt e.parse (get (name ^ ".max")), obs_opt parse_coord (get (name ^ ".am")),
           obs_list parse_coord (get (name ^ ".th")) with
     | Ans o1, Ans o2, Ans l when domain ->
-        let oc = match o2 with None -> None | Some rc -> Some (coord_to_nat rc) in
-        Some (e.chk_all m t o1 oc (List.map coord_to_nat (sort_coords l)))
+        Some (chk_all_memo e m t o1 o2 (sort_coords l))
     | _ -> None in
   let need = all_ok <> Some true in
   (* maximum *)
@@ -209,12 +220,12 @@ let check_striped (e : 'v elt) (m : 'v list list) (t : 'v) (domain : bool) (get 
     match obs_opt e.parse (get (name ^ ".max")), obs_opt int_of_string (get (name ^ ".am")),
           obs_list int_of_string (get (name ^ ".th")) with
     | Ans o1, Ans o2, Ans l when domain ->
-        let oc = match o2 with None -> Some None | Some off -> (match decode off with Some rc -> Some (Some (coord_to_nat rc)) | None -> None) in
+        let oc = match o2 with None -> Some None | Some off -> (match decode off with Some rc -> Some (Some rc) | None -> None) in
         let dec = List.map decode l in
         (match oc with
          | Some oc when not (List.exists (fun x -> x = None) dec) ->
              let coords = List.map (function Some rc -> rc | None -> (0, 0)) dec in
-             Some (e.chk_all m t o1 oc (List.map coord_to_nat (sort_coords coords)))
+             Some (chk_all_memo e m t o1 oc (sort_coords coords))
          | _ -> Some false)
     | _ -> None in
   let need = all_ok <> Some true in
@@ -354,27 +365,38 @@ let run_f32 get_in get cols =
   let cn = nat_of_int cols in
   let gmax = ref Missing in
   let th_model = lazy (List.map coord_of_nat (f32_threshold m t)) in
-  let am_gen = lazy (of_res conv_coord_opt (f32_argmax_generic m)) in
-  let max_gen = lazy (of_res (fun x -> x) (f32_max_generic m)) in
+  let am_gen_raw = lazy (f32_argmax_generic m) in
+  let am_gen = lazy (of_res conv_coord_opt (Lazy.force am_gen_raw)) in
+  (* Maximum::max (default impl) = max_of_argmax of the same pipeline's arg-maximum (definition of
+     max_generic / pipeline_sse2_max, C07_source_pipeline_table): the arg-maximum is evaluated once *)
+  let max_gen = lazy (of_res (fun x -> x) (if rows <= 300 then f32_max_generic m else f32_max_of_argmax (Lazy.force am_gen_raw) m)) in
   (* Pipeline::generic() *)
   check_entry e m t domain get "g" max_gen am_gen th_model gmax;
   gmax := obs_opt e.parse (get "g.max");
   (* Pipeline::sse2(): argmax kernel, max = default impl on top of it *)
+  let am_sse2 = lazy (f32_argmax_sse2 cn min_ m) in
   check_entry e m t domain get "s"
-    (lazy (of_res (fun x -> x) (f32_max_sse2 cn min_ m)))
-    (lazy (of_res conv_coord_opt (f32_argmax_sse2 cn min_ m))) th_model gmax;
+    (lazy (of_res (fun x -> x) (if rows <= 300 then f32_max_sse2 cn min_ m else f32_max_of_argmax (Lazy.force am_sse2) m)))
+    (lazy (of_res conv_coord_opt (Lazy.force am_sse2))) th_model gmax;
   if cols = 32 then begin
-    check_entry e m t domain get "a"
-      (lazy (of_res (fun x -> x) (f32_max_avx2 m)))
-      (lazy (of_res conv_coord_opt (f32_argmax_avx2 min_ m))) th_model gmax;
+    let am_avx2 = lazy (f32_argmax_avx2 min_ m) in
+    let mx_avx2 = lazy (of_res (fun x -> x) (f32_max_avx2 m)) in
+    check_entry e m t domain get "a" mx_avx2 (lazy (of_res conv_coord_opt (Lazy.force am_avx2))) th_model gmax;
     (* the threshold of every arm is the same function (C07_arms_agree, by reflexivity): the
        dispatcher's and the StripedScores-level lists are evaluated once *)
     let th_disp = lazy (List.map coord_of_nat (f32_dispatch_threshold AGeneric m t)) in
     let th_ss = lazy (List.map int_of_n (f32_ss_threshold m t)) in
     List.iter (fun an ->
       let a = arm_of an in
-      let am = lazy (f32_dispatch_argmax a min_ m) in
-      let mx = lazy (of_res (fun x -> x) (f32_dispatch_max a m)) in
+      (* small matrices: the extracted dispatcher itself; tall ones: the arms run the kernels of the
+         pipelines above (C07_source_dispatch_table, by reflexivity: AGeneric = generic, ASse2 = SSE2
+         arg-max / generic max, AAvx2 = AVX2), whose evaluations are shared *)
+      let am = if rows <= 300 then lazy (f32_dispatch_argmax a min_ m) else match a with
+        | AGeneric -> am_gen_raw
+        | ASse2 -> am_sse2
+        | AAvx2 -> am_avx2 in
+      let mx = if rows <= 300 then lazy (of_res (fun x -> x) (f32_dispatch_max a m))
+               else match a with AAvx2 -> mx_avx2 | _ -> max_gen in
       check_entry e m t domain get ("d" ^ an) mx (lazy (of_res conv_coord_opt (Lazy.force am))) th_disp gmax;
       check_striped e m t domain get ("s" ^ an) rows cols mx
         (lazy (of_res conv_n_opt (f32_ss_argmax (Lazy.force am) m))) th_ss
@@ -408,9 +430,8 @@ let u8_elt : z elt = {
   value_eq = (fun a b -> int_of_z a = int_of_z b);
 }
 
-let run_u8 get_in get =
+let run_u8 get_in get cols =
   let e = u8_elt in
-  let cols = 32 in
   let mi = int_of_string (get_in "mi") in
   let t = z_of_int (int_of_string (get_in "t")) in
   let m = List.map (List.map e.of_int) (parse_matrix_fields get_in cols) in
@@ -419,8 +440,9 @@ let run_u8 get_in get =
   let cn = nat_of_int cols in
   let gmax = ref Missing in
   let th_model = lazy (List.map coord_of_nat (u8_threshold m t)) in
-  let am_gen = lazy (of_res conv_coord_opt (u8_argmax_generic m)) in
-  let max_gen = lazy (of_res (fun x -> x) (u8_max_generic m)) in
+  let am_gen_raw = lazy (u8_argmax_generic m) in
+  let am_gen = lazy (of_res conv_coord_opt (Lazy.force am_gen_raw)) in
+  let max_gen = lazy (of_res (fun x -> x) (if rows <= 300 then u8_max_generic m else u8_max_of_argmax (Lazy.force am_gen_raw) m)) in
   check_entry e m t domain get "g" max_gen am_gen th_model gmax;
   gmax := obs_opt e.parse (get "g.max");
   (* Pipeline::sse2() has no u8 kernels: default impls *)
@@ -429,12 +451,14 @@ let run_u8 get_in get =
      C07_source_dispatch_table): evaluated once (the u8 arg-max model is quadratic in the rows) *)
   let am_avx2 = lazy (u8_argmax_avx2 m) in
   let mx_avx2 = lazy (of_res (fun x -> x) (u8_max_avx2 m)) in
-  check_entry e m t domain get "a" mx_avx2 (lazy (of_res conv_coord_opt (Lazy.force am_avx2))) th_model gmax;
+  if cols = 32 then check_entry e m t domain get "a" mx_avx2 (lazy (of_res conv_coord_opt (Lazy.force am_avx2))) th_model gmax;
   let th_ss = lazy (List.map int_of_n (u8_ss_threshold m t)) in
-  List.iter (fun an ->
+  if cols = 32 then List.iter (fun an ->
     let a = arm_of an in
-    let am = if a = AAvx2 then am_avx2 else lazy (u8_dispatch_argmax a m) in
-    let mx = if a = AAvx2 then mx_avx2 else lazy (of_res (fun x -> x) (u8_dispatch_max a m)) in
+    (* the Generic and Sse2 arms run the generic scans (C07_source_dispatch_table) *)
+    let am = if rows <= 300 then lazy (u8_dispatch_argmax a m) else if a = AAvx2 then am_avx2 else am_gen_raw in
+    let mx = if rows <= 300 then lazy (of_res (fun x -> x) (u8_dispatch_max a m))
+             else if a = AAvx2 then mx_avx2 else max_gen in
     check_entry e m t domain get ("d" ^ an) mx (lazy (of_res conv_coord_opt (Lazy.force am))) th_model gmax;
     check_striped e m t domain get ("s" ^ an) rows cols mx
       (lazy (of_res conv_n_opt (u8_ss_argmax (Lazy.force am) m))) th_ss
@@ -568,12 +592,17 @@ let () =
         List.iter (fun tok -> let (k, v) = kv tok in Hashtbl.replace otab k v) (String.split_on_char ' ' obs);
         let get k = Hashtbl.find_opt otab k in
         verdict := "OK";
+        Hashtbl.reset all_memo;
         (try
            match get_in "k" with
            | "f32" -> run_f32 get_in get 32
            | "f16" -> run_f32 get_in get 16
            | "f48" -> run_f32 get_in get 48
-           | "u8" -> run_u8 get_in get
+           | "f64" -> run_f32 get_in get 64
+           | "u8" -> run_u8 get_in get 32
+           | "b16" -> run_u8 get_in get 16
+           | "b48" -> run_u8 get_in get 48
+           | "b64" -> run_u8 get_in get 64
            | "e2e" -> run_e2e get_in get
            | k -> diff "unknown kind %s" k
          with ex -> diff "driver exception %s" (Printexc.to_string ex));
